@@ -205,7 +205,9 @@ def gen_history(index: int, vseed: int, pool: dict, tier: str) -> dict:
         many = pool["bank_keys"]["many"]
         n_fill = (1 << rng.choice([5, 6, 7, 8, 9])) + rng.choice([-1, 0, 1])
         first = [["bic_from_bank_code", *many[0]], ["bic_candidates", *many[1]], ["iban_props", pool["lookup_ibans"][0]]]
-        body = [[rng.choice(["bic_from_bank_code", "bic_candidates"]), *many[2 + i]] for i in range(min(n_fill, len(many) - 3))]
+        kind = rng.choice(["bic_from_bank_code", "bic_candidates", "mixed"])  # N counts lookups of ONE kind
+        body = [[kind if kind != "mixed" else rng.choice(["bic_from_bank_code", "bic_candidates"]), *many[2 + i]]
+                for i in range(min(n_fill, len(many) - 3))]
         hist = first + body + [json.loads(json.dumps(op)) for op in first]
         return {
             "property": PROP, "engine": core.ENGINE_VERSION, "verif_seed": vseed, "run_index": index,
